@@ -17,8 +17,10 @@ from .terms import TOP
 from .lib import sg, ITER, ITER_CARD_PRESERVING
 
 ITER_NEXT = ('std::iter::Iterator::next',)
-PASS_THROUGH = {'filter', 'inspect', 'skip_while', 'take_while', 'by_ref', 'peekable', 'fuse', 'into_iter', 'iter', 'iter_mut',
-                'take', 'skip', 'step_by', 'rev', 'chain'}      # element term unchanged (which elements survive is a separate question)
+# element term unchanged; only adaptors that keep every element (or drop by a per-element closure) pass through.
+# take / skip / step_by / rev / chain / take_while / skip_while stay visible as the root of an ('elem', ..) term so that
+# every rule that asks "which elements" sees them in the spine.
+PASS_THROUGH = {'filter', 'inspect', 'by_ref', 'peekable', 'fuse', 'into_iter', 'iter', 'iter_mut'}
 OPTION = 'std::option::Option'
 
 
